@@ -14,8 +14,7 @@ mutual
 def specFieldsSelWith (s : Schema) (spread : Name → List AstAndDef) : Option TypeDef → Selection → List AstAndDef
   | parent, .field pos alias name args dirs sel =>
       [⟨parent, ⟨pos, alias, name, args, dirs, sel⟩, parent.bind (·.fieldByName name)⟩]
-  | parent, .inline _ tc _ sel =>
-      specFieldsWith s spread (match tc.bind s.typeByName with | some t => some t | none => parent) sel
+  | parent, .inline _ tc _ sel => specFieldsWith s spread (inlineParent s tc parent) sel
   | _, .spread _ name _ => spread name
 def specFieldsWith (s : Schema) (spread : Name → List AstAndDef) : Option TypeDef → List Selection → List AstAndDef
   | _, [] => []
@@ -90,19 +89,6 @@ def fieldsInSetCanMerge (s : Schema) (d : Document) (spreadFuel : Nat) : Nat →
           a.field.name == b.field.name && identicalArguments a.field.args b.field.args &&
             fieldsInSetCanMerge s d spreadFuel n (subFields s d spreadFuel a ++ subFields s d spreadFuel b)
          else true)) fields
-
-mutual
-def selDepth : Selection → Nat
-  | .field _ _ _ _ _ sel => 1 + selsDepth sel
-  | .spread _ _ _ => 1
-  | .inline _ _ _ sel => 1 + selsDepth sel
-def selsDepth : List Selection → Nat
-  | [] => 0
-  | x :: xs => max (selDepth x) (selsDepth xs)
-end
-
-def docDepth (d : Document) : Nat :=
-  d.foldl (fun m x => max m (match x with | .op o => selsDepth o.sel | .frag f => selsDepth f.sel)) 0
 
 /-- enough fuel for acyclic documents: spreads nest at most `#fragments` deep, fields at most
     `depth x (#fragments + 1)` -/
